@@ -100,6 +100,17 @@ structure FieldFact where
   writes : List Site
   deriving DecidableEq, Repr, Inhabited
 
+/-- a call from canvas into a dependency method that writes into its receiver; `privateCopy`: the
+receiver variable was rebound to a re-parsed copy (`ParseSFNT(recv.Write())`) before the call -/
+structure MutatorCall where
+  fn : String
+  pos : String
+  call : String
+  recv : String
+  privateCopy : Bool
+  copyPos : String
+  deriving DecidableEq, Repr, Inhabited
+
 /-! ## Discipline of one variable (decidable; evaluated over the whole extracted table) -/
 
 def Site.inOnce (o : String) (s : Site) : Bool := s.sync == .once o
